@@ -434,3 +434,48 @@ func scanColumnReaders(r *run) {
 	}
 	addScanObl(r, "column-readers", "Tokenizer.col is read only by psCurCol / tkzNext and ParseState.offsideCol only by the offside primitives and the parse-state constructors", len(bad) == 0, strings.Join(bad, "; "))
 }
+
+// scanNotOperand (C08): in parseTerm the operand of prefix `not` is parsed by a recursive call of
+// parseTerm (an operand: atom, application, parenthesised expression), never by the expression parser:
+// "prefix not applies to the following application" and swallows no binary operator.
+func scanNotOperand(r *run) {
+	ref := r.eng.FuncDecl["main.parseTerm"]
+	if ref == nil {
+		addScanObl(r, "not-operand-is-a-term", "parseTerm exists", false, "function not found")
+		return
+	}
+	found := false
+	ok := false
+	detail := ""
+	ast.Inspect(ref.Decl.Body, func(n ast.Node) bool {
+		cc, isCC := n.(*ast.CaseClause)
+		if !isCC || len(cc.List) != 1 {
+			return true
+		}
+		id, isID := cc.List[0].(*ast.Ident)
+		if !isID || id.Name != "TokenType_NOT" {
+			return true
+		}
+		found = true
+		selfCalls, exprCalls := 0, 0
+		for _, st := range cc.Body {
+			ast.Inspect(st, func(m ast.Node) bool {
+				if c, isCall := m.(*ast.CallExpr); isCall {
+					if f, isF := c.Fun.(*ast.Ident); isF {
+						switch f.Name {
+						case "parseTerm":
+							selfCalls++
+						case "pExpr", "parseExpr", "parseExprWithPrec", "parseBinAfter":
+							exprCalls++
+						}
+					}
+				}
+				return true
+			})
+		}
+		ok = selfCalls == 1 && exprCalls == 0
+		detail = fmt.Sprintf("recursive parseTerm calls in the not arm: %d, expression-parser calls: %d", selfCalls, exprCalls)
+		return false
+	})
+	addScanObl(r, "not-operand-is-a-term", "in parseTerm the operand of prefix not is parsed by parseTerm itself (one operand), not by the expression parser", found && ok, detail)
+}
